@@ -10,7 +10,7 @@ NONREC = [e for e in ALL_ACME_ERRORS if e not in RECOVERABLE]
 # CA "dialects": ways in which conforming CAs differ that no property mentions (the names in URLs, headers a client may ignore,
 # members it must ignore).  Every scenario is run against one of them, chosen by its tag; what a scenario sets itself is kept.
 DIALECTS = [{}, {"host": "LocalHost"}, {"retry_after": 0}, {"unknown_members": True}, {"orders_field": False},
-            {"retry_after": 7, "host": "LocalHost", "unknown_members": True}, {}]
+            {"retry_after": 7, "host": "LocalHost", "unknown_members": True}, {"pem_style": "crlf"}, {"pem_style": "nofinal"}, {}]
 
 
 def with_dialect(spec):
